@@ -473,6 +473,10 @@ impl Story {
                         return Err(StoryError::InvalidStoryState("Passed non-integer when creating a list element from a numerical value.".to_owned()));
                     }
 
+                    if list_name_val.is_none() {
+                        return Err(StoryError::InvalidStoryState("Passed non-string list name when creating a list element from a numerical value.".to_owned()));
+                    }
+
                     let mut generated_list_value: Option<Value> = None;
                     if let Some(found_list_def) = self
                         .list_definitions
